@@ -5,6 +5,7 @@
 -/
 import Parsley.Lemmas.LoaderE2EXrefFile
 import Parsley.Lemmas.LoaderE2EFilter
+import Parsley.Lemmas.LoaderE2EFilterAny
 namespace Parsley.LoaderE2E
 open Parsley Parsley.Prim Parsley.Obj Parsley.Indirect Parsley.Loader Parsley.C02 Parsley.Spelling
 open Parsley.XrefSpec Parsley.C13 Parsley.LoaderChain
@@ -29,6 +30,22 @@ inductive Stored (kvs : List (Bytes × Obj)) (rows : Bytes) : Bytes → Prop
       (∀ r ∈ img, r.length = PredSpec.rowBytes p.columns p.colors p.bpc) → (p.predictor = 2 ∨ img ≠ []) →
       img.flatten = rows → parts.flatten = PredSpec.predict p img → (∀ q ∈ parts, q.length ≤ 65535) →
       Stored kvs rows (FiltersSpec.zlibStored parts ++ trailing)
+  /-- /Filter /FlateDecode, no /DecodeParms, the stream content `z` being ANY zlib stream the modelled inflate decodes to
+      the rows (followed by anything): in particular every stream of the specification's encoders - stored,
+      fixed-Huffman and dynamic-Huffman blocks in any mixture (`stored_of_layerEnc`, C06's round-trip theorems) -/
+  | flateAny (z extra : Bytes) :
+      dictGet Xref.kFilter kvs = some (.name Filters.nFlate) → dictGet Xref.kDecodeParms kvs = none →
+      Inflate.inflate z = .ok (rows ++ extra) → Stored kvs rows z
+  /-- the same with a PNG / TIFF predictor: `z` inflates to the forward-filtered image of the rows -/
+  | flatePredAny (P : List (Bytes × Obj)) (p : PredSpec.Params) (img : List Bytes) (z : Bytes) :
+      dictGet Xref.kFilter kvs = some (.name Filters.nFlate) → dictGet Xref.kDecodeParms kvs = some (.dict P) →
+      dictGet kPredictor P = some (.int (p.predictor : Int)) → dictGet kColumns P = some (.int (p.columns : Int)) →
+      (dictGet kColors P = some (.int (p.colors : Int)) ∨ (dictGet kColors P = none ∧ p.colors = 1)) →
+      (dictGet kBpc P = some (.int (p.bpc : Int)) ∨ (dictGet kBpc P = none ∧ p.bpc = 8)) →
+      p.accepted → p.columns < 18446744073709551616 → p.colors * p.bpc < 18446744073709551616 →
+      p.columns * p.colors * p.bpc < 18446744073709551616 →
+      (∀ r ∈ img, r.length = PredSpec.rowBytes p.columns p.colors p.bpc) → (p.predictor = 2 ∨ img ≠ []) →
+      img.flatten = rows → Inflate.inflate z = .ok (PredSpec.predict p img) → Stored kvs rows z
 
 /-- the declarative storage implies that the model's filter chain yields the rows -/
 theorem stored_decodes (kvs : List (Bytes × Obj)) (rows data : Bytes) (h : Stored kvs rows data) :
@@ -44,6 +61,19 @@ theorem stored_decodes (kvs : List (Bytes × Obj)) (rows data : Bytes) (h : Stor
     rw [applyFilters_flate_pred kvs P p img parts trailing hd hpred hcols hcolors hbpc hacc h1 h2 h3 hrows hne hflat hparts,
       himg]
     simp
+  | flateAny z extra hf hp hz =>
+    exact ⟨[⟨Filters.nFlate, none⟩], extra, streamFilters_flate kvs _ hf hp, applyFilters_flate_any kvs data _ hz⟩
+  | flatePredAny P p img z hf hd hpred hcols hcolors hbpc hacc h1 h2 h3 hrows hne himg hz =>
+    refine ⟨[⟨Filters.nFlate, some 0⟩], [], streamFilters_flate_parms kvs P _ hf hd, ?_⟩
+    rw [applyFilters_flate_pred_any kvs P p img data hd hpred hcols hcolors hbpc hacc h1 h2 h3 hrows hne hz, himg]
+    simp
+
+/-- every conformant Flate encoding in the sense of C06 (`LayerEnc`: stored blocks, the specification's fixed-Huffman
+    encoder, its dynamic-Huffman / mixed-block encoder, or any stream the modelled inflate accepts) stores the rows -/
+theorem stored_of_layerEnc (kvs : List (Bytes × Obj)) (rows extra z : Bytes)
+    (hf : dictGet Xref.kFilter kvs = some (.name Filters.nFlate)) (hp : dictGet Xref.kDecodeParms kvs = none)
+    (h : C06.LayerEnc Filters.nFlate (rows ++ extra) z) : Stored kvs rows z :=
+  Stored.flateAny z extra hf hp (inflate_of_layerEnc h rfl)
 
 namespace XrefStreamFile
 
